@@ -3,7 +3,7 @@ CONSTANTS
   NUri = 2
   NText = 1000000
   MaxHist = 1000000
-  Kinds = {"open", "change0", "change1", "change2", "open_nf", "semtok", "unkreq", "unknotif", "cresp", "shutdown", "early"}
+  Kinds = {"open", "change0", "change1", "change2", "open_nf", "semtok", "unkreq", "unknotif", "cresp", "close", "badreq", "badnotif", "shutdown", "early"}
   Emit = FALSE
   Deviations = {}
 INVARIANTS TraceInv Verdict
